@@ -33,6 +33,7 @@ VARIABLES sch, idx, topo, hs,      \* configuration, fixed by Init
           veto, nest,              \* handler script of the current call
           pan, stall,              \* handlers that panic / overrun their timeout
           wedged,                  \* the handler goroutine is gone
+          backoff,                 \* Machine.Backoff(): a HandlerDeadline was hit recently
           first,                   \* result of the first transition of the drain
           atCall,                  \* state snapshot when the call was issued
           firstTx,                 \* observation of the call's own transition
@@ -43,7 +44,7 @@ VARIABLES sch, idx, topo, hs,      \* configuration, fixed by Init
 cfgVars   == <<sch, idx, topo, hs>>
 machVars  == <<active, clock, qtick>>
 vars == <<sch, idx, topo, hs, active, clock, qtick, queue, running, veto, nest,
-          pan, stall, wedged,
+          pan, stall, wedged, backoff,
           first, atCall, firstTx, prev, obs, verdict, ncalls>>
 
 None == [kind |-> "none"]
@@ -101,7 +102,7 @@ InitWith(s, i, t, h) ==
   /\ qtick = 1
   /\ queue = <<>> /\ running = FALSE
   /\ veto = {} /\ nest = <<>>
-  /\ pan = {} /\ stall = {} /\ wedged = FALSE
+  /\ pan = {} /\ stall = {} /\ wedged = FALSE /\ backoff = FALSE
   /\ first = "none" /\ atCall = None /\ firstTx = None
   /\ prev = None /\ obs = [kind |-> "init"]
   /\ verdict = AllTrue
@@ -121,18 +122,31 @@ CallF(type, called, check, v, nst, pn, stl) ==
   /\ running' = TRUE
   /\ veto' = v /\ nest' = nst
   /\ pan' = pn /\ stall' = stl
-  /\ first' = "none" /\ firstTx' = None
-  /\ queue' = IF check THEN <<Mut(type, called, FALSE, TRUE, 0)>> \o queue
+  \* a backing-off machine refuses the call: Canceled, nothing is queued
+  \* (machine.go: `if m.disposing.Load() || m.Backoff() { return Canceled }`)
+  /\ first' = IF backoff THEN "canceled" ELSE "none"
+  /\ firstTx' = None
+  /\ queue' = IF backoff THEN queue
+              ELSE IF check THEN <<Mut(type, called, FALSE, TRUE, 0)>> \o queue
               ELSE Append(queue, Mut(type, called, FALSE, FALSE,
                                      qtick + Pending(queue) + 1))
   /\ atCall' = [kind |-> "call",
                 mut |-> [type |-> type, called |-> called, auto |-> FALSE, check |-> check],
-                active |-> active, time |-> TimeOf(idx, clock), qtick |-> qtick]
+                active |-> active, time |-> TimeOf(idx, clock), qtick |-> qtick,
+                refused |-> backoff]
   /\ prev' = prev
   /\ obs' = [kind |-> "call", mut |-> atCall'.mut]
   /\ verdict' = AllTrue
   /\ ncalls' = ncalls + 1
-  /\ UNCHANGED <<cfgVars, machVars, wedged>>
+  /\ UNCHANGED <<cfgVars, machVars, wedged, backoff>>
+
+(* the environment: a handler deadline was hit (backoff starts) / the backoff  *)
+(* period is over                                                              *)
+SetBackoff(b) ==
+  /\ ~running
+  /\ backoff' = b
+  /\ UNCHANGED <<cfgVars, machVars, queue, running, veto, nest, pan, stall, wedged,
+                 first, atCall, firstTx, prev, obs, verdict, ncalls>>
 
 Call(type, called, check, v, nst) == CallF(type, called, check, v, nst, {}, {})
 
@@ -226,11 +240,11 @@ StepV(vt) ==
              /\ obs' = [kind |-> IF r.crash THEN "crash" ELSE "hang", mut |-> MutCore(mut)]
              /\ verdict' = [AllTrue EXCEPT !.nocrash = ~r.crash, !.nohang = ~r.hang]
              /\ queue' = <<>> /\ running' = FALSE
-             /\ UNCHANGED <<cfgVars, machVars, veto, nest, pan, stall, wedged, first, atCall,
+             /\ UNCHANGED <<cfgVars, machVars, veto, nest, pan, stall, wedged, backoff, first, atCall,
                             firstTx, prev, ncalls>>
         ELSE
           /\ active' = r.active /\ clock' = r.clock /\ qtick' = qt
-          /\ wedged' = r.wedged
+          /\ wedged' = r.wedged /\ backoff' = backoff
           /\ \E order \in AutoOrders(r.autoSet) :
                queue' = excs \o (IF r.autoSet = {} THEN <<>>
                                  ELSE <<Mut("add", order, TRUE, FALSE, 0)>>)
@@ -250,7 +264,7 @@ RetObs ==
    mtime |-> TimeOf(idx, clock),
    call |-> [mut |-> atCall.mut,
              res |-> first,
-             selfMutating |-> nest # <<>>,
+             selfMutating |-> nest # <<>>, refused |-> atCall.refused,
              before |-> atCall.active, tb |-> atCall.time, qb |-> atCall.qtick,
              after |-> active, ta |-> TimeOf(idx, clock), qa |-> qtick,
              after1 |-> IF firstTx = None THEN active ELSE firstTx.after,
@@ -263,7 +277,7 @@ Return ==
   /\ obs' = RetObs
   /\ verdict' = RetVerdict(IF obs.kind = "tx" THEN obs ELSE prev, RetObs)
   /\ first' = "none" /\ atCall' = None /\ firstTx' = None
-  /\ UNCHANGED <<cfgVars, machVars, queue, veto, nest, pan, stall, wedged, ncalls>>
+  /\ UNCHANGED <<cfgVars, machVars, queue, veto, nest, pan, stall, wedged, backoff, ncalls>>
 
 Step == StepV(veto)
 
